@@ -5,6 +5,7 @@ import AiutiVerif.Buffer.Props
 import AiutiVerif.Buffer.Waits
 import AiutiVerif.Buffer.Terminates
 import AiutiVerif.Buffer.Burst
+import AiutiVerif.Buffer.Retry
 /-!
 # Buffer property theorems at run level (C03 conservation, C07 barrier)
 
@@ -110,6 +111,29 @@ theorem C03_all_delivered_at_rest (s0 : St) (hf : Fresh s0) (ins : List In) (hn 
   · rw [hp] at h1; cases h1
   · rw [hi] at h1; cases h1
   · rw [h.outsDeliv]; exact h1
+
+/-- **Arguments of a call that raised are offered again until a call succeeds.**  Read off the output
+stream (`retry`, `Buffer/Retry.lean`): whenever a call of the wrapped function follows a call that
+failed, it carries **all** of the failed call's arguments (and whatever arrived since) - the reading
+never becomes `none` - for every program without a shutdown, after every prefix and after draining;
+and while a call has failed and none has started since, its arguments are still in the round's input
+set (so the next call will have them). -/
+theorem C03_failed_call_is_offered_again (s0 : St) (hf : Fresh s0) (ins : List In) (hn : noShutdown ins) :
+    (retry (runProgram s0 ins).outs).isSome = true ∧ (retry (ins.foldl applyIn s0).outs).isSome = true ∧
+    ∀ cur f, retry (runProgram s0 ins).outs = some (cur, some f) → ∀ x ∈ f, x ∈ (runProgram s0 ins).inputs := by
+  have h1 := Rr_foldl ins s0 (Rr_fresh s0 hf) hn
+  have h2 : Rr (runProgram s0 ins) := Rr_advance fuelDefault horizon false _ h1
+  obtain ⟨c1, l1, a1, _, _⟩ := h1.ok
+  obtain ⟨c2, l2, a2, _, d2⟩ := h2.ok
+  refine ⟨by rw [a2]; rfl, by rw [a1]; rfl, ?_⟩
+  intro cur f hr x hx
+  rw [a2] at hr
+  simp only [Option.some.injEq, Prod.mk.injEq] at hr
+  exact d2 f hr.2 x hx
+
+/-- `retry` really rejects a retry that lost an argument, and accepts a superset -/
+example : retry [.start 0 [1, 2], .fin 3 false, .start 9 [2]] = none := by decide
+example : retry [.start 0 [1, 2], .fin 3 false, .waitRet 7 3, .start 9 [1, 2, 5]] = some (some [1, 2, 5], none) := by decide
 
 /-! ## C07 — `wait()` is a barrier -/
 
